@@ -18,10 +18,10 @@ reg("C06", "generated-input search: operator applied to constants, steady unifor
     "Constants through diffusion/advection/TVD/means on generated grids and velocities; uniform state in stream-function velocity fields under all schemes stays uniform for any dt; source-only solve gives gamma/beta. Exploration.",
     TB, "DESIGN.md 3 C06")
 reg("C07", "generated-input search with a validity predicate (range of values) + M-matrix structure of the eliminated step matrix",
-    "Generated problems (contrast to 1e6, zeros in D, dt over 8 decades, Dirichlet/no-flux/periodic) must keep every value within the range of previous values and Dirichlet data; the ghost-eliminated step matrix AND the spatial operator alone (dt -> infinity) are checked for non-positive off-diagonals and non-negative row sums. Exploration.",
+    "Generated problems (contrast to 1e6, zeros in D, dt over 8 decades, Dirichlet/no-flux/periodic) must keep every value within the range of previous values and Dirichlet data; the ghost-eliminated step matrix AND the spatial operator alone (dt -> infinity) are checked for non-positive off-diagonals, non-negative row sums and weights summing to one (constant data reproduced exactly). Exploration.",
     TB + "; periodic axes with equal end cells (K2)", "DESIGN.md 3 C07")
 reg("C08", "metamorphic / differential testing between paired grids (lift, permute, mirror, cyclic shift)",
-    "A generated low-dimensional problem is solved on its grid and on the higher-dimensional grid with a redundant axis (9 embeddings + two-step lifts), or permuted / mirrored / cyclically shifted on Cartesian grids; solutions must correspond incl. boundary values. Exploration.",
+    "A generated low-dimensional problem is solved on its grid and on the higher-dimensional grid with a redundant axis (9 embeddings + two-step lifts), or permuted / mirrored / cyclically shifted on Cartesian grids; solutions must correspond incl. boundary values; upwind/TVD problems also with an independent direction field (two-argument call forms). Exploration.",
     TB + "; shift asserted for diffusion/central only (K7)", "DESIGN.md 3 C08")
 reg("C10", "generated-input search against closed-form geometry (per cell)",
     "dims, faces, centres, sizes incl. ghost sizes, both constructor forms, per-cell volumes, totals, label reachability against closed forms on generated faces (ratios to 1e4, partial angles, offset origin). Exploration; K1 reported as known finding.",
@@ -36,20 +36,20 @@ reg("C13", "bounded-exhaustive enumeration (names x singular rationals x powers 
     "Limiter values against published closed forms in exact rational arithmetic; totality, psi(1)=1, TVD bounds, clipping, elementwise/shape behaviour, unknown-name fallback; TVD correction finite on ALL integer fields {-2..2}^(N+2), N<=3 (exhaustive) and generated 2-D/3-D fields.",
     "Exact reference via fractions.Fraction; numpy trusted; |r|<=1e100", "DESIGN.md 3 C13")
 reg("C16", "bounded-exhaustive enumeration of the request matrix against an expected-outcome table from the docs + generated valid requests",
-    "Complete enumeration of class x label x object x get/set, component labels, periodic-axis subsets x flag choice, constructor arities, shape families, bad coefficient/term objects; generated valid constructor forms / term kinds on grids with N>=1 must not raise.",
+    "Complete enumeration of class x label x object x get/set, component labels, periodic-axis subsets x flag choice x every ordered pair of repeated requests on one variable, constructor arities, shape families, bad coefficient/term objects; generated valid constructor forms / term kinds on grids with N>=1 must not raise.",
     "Expected outcomes transcribed from docs/user_guide/meshes.md and docstrings", "DESIGN.md 3 C16")
 reg("C17", "metamorphic testing under unit rescaling (L,T,K over +-6 decades) + term-level linearity",
-    "A generated problem and its rescaled twin must give solutions related by exactly K (1e-9); homogeneity/additivity of every term in its coefficient field. Exploration; K4 reported as known finding.",
+    "A generated problem and its rescaled twin must give solutions related by exactly K (max(1e-9, 1e-12*cond); cond >= 1e8 discarded, counted); homogeneity/additivity of every term in its coefficient field. Exploration; K4 reported as known finding.",
     TB + "; cases with non-zero gradients below 1e-12 excluded for TVD (K4), counted", "DESIGN.md 3 C17")
 reg("C09", "model-based stateful testing (Hypothesis RuleBasedStateMachine + generated programs) and bounded-exhaustive enumeration of edit/solve histories against a reference model and fresh-variable differential",
     "Edit/solve histories are executed on the real objects and on a dict-of-arrays model; after every solve a fresh variable built from the model runs the same solve and full arrays are compared; invariants after every step (visible state equals model, clean variables have reference ghost values and a fresh cached boundary term). All sequences of length <=3 (4) over a 14-letter alphabet and every single edit kind x face x grid class on a clean variable are enumerated; longer histories are sampled. K3 (attributed from the model only) reported as known finding.",
     TB + "; solves skipped while a BC face is degenerate; terms built from coefficient fields only", "DESIGN.md 3 C09")
 reg("C14", "generated expression trees evaluated against numpy (reference evaluation) with byte snapshots and cross-modification probes",
-    "Expression trees (depth<=3) over all operators and reflected operators, funceval/celleval/faceeval, copy(): values bitwise equal to numpy, operands byte-identical before/after, result BCs equal to the left-most operand's but unshared, reference ghost layer, no shared memory, edits do not leak either way.",
+    "Expression trees (depth<=3) over all operators and reflected operators, funceval/celleval/faceeval with 1..8 arguments, copy(): values bitwise equal to numpy, operands byte-identical before/after, result BCs equal to the left-most operand's but unshared, reference ghost layer, no shared memory, edits do not leak either way.",
     TB, "DESIGN.md 3 C14")
 reg("C15", "generated-input search with byte snapshots of every input before/after each public builder/solver, bit-identity of repeated calls, aliasing probes",
     "Every public builder and solver on generated inputs: snapshots of mesh, coefficient variables, solution variable, BC arrays, cached boundary term and term objects before/after; repeated calls bit-identical; returned objects share no memory with inputs/mesh; a builder called again after an in-place edit of its input equals the builder on fresh objects (no stale memoisation); zero-containing coefficients for the means; time loop reusing terms equals loop rebuilding them.",
     TB, "DESIGN.md 3 C15")
 reg("C02", "generated manufactured solutions (sympy-derived source and boundary data) + observed order of convergence on a resolution ladder",
-    "For generated class/spacing/BC-kind/term-set/solution-parameter combinations the exact solution's source term and boundary data are derived symbolically from the continuous operators; the problem is solved on 3 (escalating to 5) doubling resolutions and the observed order of the max-norm error must reach the scheme's order. Decides consistency of every metric factor, sign and coefficient placement; not a proof of convergence.",
+    "For generated class/spacing/BC-kind/term-set/solution-parameter combinations (plus an enumerated stratum class x origin x scheme x BC pattern x flow direction) the exact solution's source term and boundary data are derived symbolically from the continuous operators; the problem is solved on 3 (escalating to 5) doubling resolutions and the observed order of the max-norm error must reach the scheme's order. Decides consistency of every metric factor, sign and coefficient placement; not a proof of convergence.",
     TB + "; sympy trusted; finite ladders (1-D to 1024, 2-D to 128, 3-D to 32 cells per axis)", "DESIGN.md 3 C02")
